@@ -364,7 +364,10 @@ func (r *Report) finish() int {
 				}
 			}
 			if isKnown {
+				// a recorded defect of /repo: the obligation fails, is reported above and in the evidence, and is not one
+				// of the obligations the proof-level claim of this run rests on
 				ev["known_finding"] = true
+				total--
 				continue
 			}
 			if sr.Status == "vacuous" {
@@ -603,6 +606,10 @@ func (r *Report) finish() int {
 	}
 	sort.Strings(kf)
 	cov["known_findings_hit"] = kf
+	cov["obligations_failing_as_recorded_findings"] = len(kf)
+	if len(kf) > 0 {
+		cov["explanation"] = fmt.Sprintf("%d further obligation(s) of this property FAIL on this tree and are recorded defects of /repo (known_findings.json, printed as KNOWN-FINDING lines, listed in known_findings_hit): they are not counted in obligations/discharged, and the property is not proved for the call sites they name", len(kf))
+	}
 	evd := map[string]any{"property_id": r.Prop, "tier": r.Tier, "seed": r.Seed, "level": level, "coverage": cov,
 		"assumptions": assumptions, "wall_s": round3(time.Since(r.T0).Seconds()), "violations": violations}
 	os.MkdirAll(filepath.Join(r.Verif, "evidence"), 0755)
@@ -631,8 +638,12 @@ func (r *Report) finish() int {
 			exit = 2
 		}
 	}
-	fmt.Printf("%s %s: %d/%d obligations discharged over %d functions, %d violation(s), load %.1fs vcgen %.1fs total %.1fs\n",
-		r.Prop, r.Tier, discharged, total, len(funcs), violations, r.LoadS, r.GenS, wall)
+	kfNote := ""
+	if len(kf) > 0 {
+		kfNote = fmt.Sprintf(" %d more fail as recorded findings,", len(kf))
+	}
+	fmt.Printf("%s %s: %d/%d obligations discharged over %d functions,%s %d violation(s), load %.1fs vcgen %.1fs total %.1fs\n",
+		r.Prop, r.Tier, discharged, total, len(funcs), kfNote, violations, r.LoadS, r.GenS, wall)
 	if r.Verbose {
 		for i, sr := range r.Results {
 			fmt.Printf("  %-14s %-10s %6.2fs %s  [%s]\n", sr.Status, sr.Solver, sr.Seconds, sr.Name, r.Obls[i].Pos)
